@@ -118,6 +118,22 @@ pub fn theorem(rng: &mut Rng, name: &str, benign: bool) -> Outcome {
         stdout.extend(big_noise(rng));
     }
     let line = status_line(rng, "Theorem", name);
+    if benign && !big && rng.pct(6) {
+        // chatter in front of the status line so that the line lies across a buffer boundary
+        let boundary = *rng.pick(&[4096usize, 8192, 8192, 16384, 65536]);
+        let before = 1 + rng.below(line.len() as u64 - 2) as usize;
+        let start = boundary - before;
+        let mut i = 0u64;
+        while stdout.len() + 80 < start {
+            stdout.extend_from_slice(format!("% strategy {i}: lrs+10_1_drc=off:sp=reverse_frequency:to=lpo_{} failed after {} ms\n", i * 7, i % 90).as_bytes());
+            i += 1;
+        }
+        if stdout.len() < start {
+            let fill = start - stdout.len();
+            stdout.extend(std::iter::repeat(b'%').take(fill - 1));
+            stdout.push(b'\n');
+        }
+    }
     stdout.extend_from_slice(&line);
     if big && stdout.len() < 70_000 {
         stdout.extend(big_noise(rng));
@@ -237,6 +253,9 @@ pub fn draw_shape(rng: &mut Rng, tasks: &[Task], tier: &Tier) -> Case {
     // big tasks only in thorough and rarely
     let task = loop {
         let t = rng.pick(tasks);
+        if tasks.iter().all(|t| t.large) {
+            break t;
+        }
         if t.weight > 6_000 {
             if !tier.thorough || !rng.pct(4) {
                 continue;
@@ -333,6 +352,7 @@ pub fn draw_run(rng: &mut Rng, case: &mut Case, reference: &[(String, Vec<u8>)],
         let min_cap = (largest / 150).max(1);
         plan.pipe_capacity = (*rng.pick(&[1usize, 7, 64, 512, 4096, 65536, 1 << 20])).max(min_cap);
         plan.read_chunk = (*rng.pick(&[1usize, 13, 512, 65536])).max(min_cap);
+        plan.out_piece = *rng.pick(&[0usize, 0, 0, 5, 11, 37, 4096]);
         plan.short_write_pct = *rng.pick(&[0u8, 0, 10, 50]);
         plan.eintr_pct = *rng.pick(&[0u8, 0, 5, 30]);
         plan.write_yield_every = if total > 200_000 { *rng.pick(&[0u32, 64, 997]) } else { *rng.pick(&[0u32, 1, 7, 64]) };
